@@ -299,7 +299,7 @@ class MiniPilot(object):
                 comp._workers[state] = bulk
 
     # --------------------------------------------------------------------------
-    def start(self):
+    def start(self, announce=True):
         self.loops = dict()
         self.loop_errors = list()
 
@@ -318,6 +318,10 @@ class MiniPilot(object):
             t.start()
         self.pair.start()           # the scheduler's child loop
 
+        if announce:
+            self.announce_pilots()
+
+    def announce_pilots(self):
         # the task manager learns about the pilot
         self.tmgr.publish(rpc.CONTROL_PUBSUB,
                           {'cmd': 'add_pilots',
